@@ -668,6 +668,48 @@ func c15FailSub(c *core.Ctx, p c15Params) {
 			}
 			return nil
 		}
+		// a resource used while the service has no connection (not served yet,
+		// or shut down): the subscription cannot be made
+		noConn := func(when string) {
+			rs, err := rg.S.Resource("svc.q.noconn")
+			if err != nil {
+				c.Inconclusive("Service.Resource: " + err.Error())
+				return
+			}
+			var got []bool
+			p0 := rg.C.Len()
+			ret := make(chan struct{})
+			go func() {
+				defer close(ret)
+				defer func() { recover() }()
+				rs.QueryEvent(func(qr res.QueryRequest) {
+					mu.Lock()
+					got = append(got, qr == nil)
+					mu.Unlock()
+				})
+			}()
+			if !waitCh(ret, 5*time.Second) {
+				c.Violation("C15/failed-subscription-hangs:"+when, "QueryEvent on a service without connection did not return", nil)
+				return
+			}
+			time.Sleep(12 * time.Millisecond) // longer than the query event duration
+			c.Eval(1)
+			c.Obs("no_connection_query_events", 1)
+			mu.Lock()
+			g := append([]bool(nil), got...)
+			mu.Unlock()
+			if len(g) != 1 || !g[0] {
+				c.Violation("C15/failed-subscription-callbacks:"+when, fmt.Sprintf("QueryEvent on a service without connection (%s): callback invoked %v (true = nil), want exactly one nil call", when, g), nil)
+			}
+			for _, m := range rg.C.Since(p0) {
+				if m.Subject == "event.svc.q.noconn.query" {
+					c.Violation("C15/failed-subscription-published:"+when, "a query event was published although no subscription could be made", nil)
+				}
+			}
+		}
+		if round%4 == 0 {
+			noConn("before-serve")
+		}
 		if err := rg.start(); err != nil {
 			c.Inconclusive("start: " + err.Error())
 			return
@@ -704,6 +746,9 @@ func c15FailSub(c *core.Ctx, p c15Params) {
 		}
 		c.Distinct(fmt.Sprintf("failsub/%d", round))
 		rg.stop()
+		if round%4 == 1 {
+			noConn("after-shutdown")
+		}
 	}
 	c.Sample(map[string]interface{}{"scenario": "subscribe failure injected on the n-th query subscription", "rounds": p.Rounds})
 }
